@@ -24,7 +24,11 @@ ENV["CARGO_TERM_COLOR"] = "never"
 CONC = ("hlmon", dict(runner="conc"))
 PROPS = {
     "C01": dict(level="exploration", lanes=[CONC, ("hlmon", dict(runner="seqfam"))]),
-    "C02": dict(level="exploration", lanes=[CONC, ("hlmon", dict(runner="blockfam"))]),
+    "C02": dict(level="exploration", lanes=[
+        CONC, ("hlmon", dict(runner="blockfam")), ("hlmon", dict(runner="racefam")),
+        ("miri", dict(runner="racefam", mode="seeds", seeds_quick=16, seeds_thorough=256, canary="canary_race")),
+        ("tsan", dict(runner="racefam", thorough_only=True)),
+    ]),
     "C03": dict(level="exploration", lanes=[("hlmon", dict(runner="seqfam")), ("hlmon", dict(runner="blockfam")), CONC]),
     "C04": dict(level="exploration", lanes=[("hlmon", dict(runner="tryfam")), ("hlmon", dict(runner="blockfam")), CONC]),
     "C05": dict(level="exploration", lanes=[CONC, ("hlmon", dict(runner="seqfam")), ("hlmon", dict(runner="blockfam"))]),
@@ -36,6 +40,11 @@ PROPS = {
     "C11": dict(level="fault_enumeration", lanes=[("hlmon", dict(runner="panicfam")), ("hlmon", dict(runner="conc_panic")), ("hlmon", dict(runner="seqfam"))]),
     "C12": dict(level="fault_enumeration", lanes=[("hlmon", dict(runner="faultfam"))]),
     "C13": dict(level="exploration", lanes=[("hlmon", dict(runner="tryfam"))]),
+    "C16": dict(level="exploration", lanes=[
+        ("hlmon", dict(runner="dropfam")),
+        ("miri", dict(runner="dropfam", shards=8, canary="canary_leak")),
+        ("memcheck", dict(runner="dropfam", thorough_only=True)),
+    ]),
     "C17": dict(level="exploration", lanes=[("hlmon", dict(runner="nonacqfam")), CONC]),
 }
 
@@ -116,7 +125,188 @@ def lane_hlmon(prop, tier, seed, jobs, params):
     return d
 
 
-LANE_FUNCS = {"hlmon": lane_hlmon}
+def _json_line(text):
+    for line in text.splitlines():
+        if line.startswith('{"property_id"'):
+            try:
+                return json.loads(line)
+            except Exception:
+                return None
+    return None
+
+
+def _merge_reports(reports):
+    out = dict(evaluations=0, distinct_nontrivial=0, counters={}, samples=[], violations=[], known_hits=[], inconclusive=[], rule="")
+    for d in reports:
+        out["evaluations"] += d.get("evaluations", 0)
+        out["distinct_nontrivial"] += d.get("distinct_nontrivial", 0)
+        for k, v in d.get("counters", {}).items():
+            out["counters"][k] = out["counters"].get(k, 0) + v
+        out["samples"] += d.get("samples", [])[:2]
+        out["violations"] += d.get("violations", [])
+        out["known_hits"] += d.get("known_hits", [])
+        out["inconclusive"] += d.get("inconclusive", [])
+        out["rule"] = d.get("rule", out["rule"])
+    out["samples"] = out["samples"][:4]
+    return out
+
+
+def _run_many(cmds, env, timeout, jobs):
+    """run commands in parallel (at most `jobs` at a time); returns list of (rc, stdout, stderr)"""
+    import concurrent.futures
+
+    def one(cmd):
+        try:
+            p = subprocess.run(cmd, cwd=HARNESS, env=env, stdout=subprocess.PIPE, stderr=subprocess.PIPE, text=True, timeout=timeout)
+            return (p.returncode, p.stdout, p.stderr)
+        except subprocess.TimeoutExpired:
+            return (-999, "", "watchdog timeout")
+
+    with concurrent.futures.ThreadPoolExecutor(max_workers=max(1, jobs)) as ex:
+        return list(ex.map(one, cmds))
+
+
+def _sanitizer_excerpt(stderr, markers):
+    lines = stderr.splitlines()
+    for i, l in enumerate(lines):
+        if any(m in l for m in markers):
+            return "\n".join(lines[i : i + 40])
+    return "\n".join(lines[-30:])
+
+
+def lane_miri(prop, tier, seed, jobs, params):
+    """run a harness runner under Miri, sharded / multi-seeded over processes"""
+    t0 = time.time()
+    runner = params["runner"]
+    lane = "miri:" + runner
+    env = dict(ENV)
+    base_flags = "-Zmiri-disable-isolation -Zmiri-permissive-provenance"
+    env["MIRIFLAGS"] = base_flags
+    miri = ["cargo", "+nightly", "miri", "run", "--quiet", "--"]
+    # canary (also builds): the tool must flag a deliberately broken program
+    canary = params.get("canary", "canary_uaf")
+    rc, out, err = _run_many([miri + [canary]], env, 900, 1)[0]
+    if "error: Undefined Behavior" not in err and "error: memory leaked" not in err:
+        return dict(lane=lane, violations=[], inconclusive=["miri canary %s was not flagged (rc=%s): %s" % (canary, rc, err[-1500:])])
+    shards = params.get("shards", 8)
+    seeds = params.get("seeds_thorough", 64) if tier == "thorough" else params.get("seeds_quick", 16)
+    cmds, envs = [], []
+    results = []
+    if params.get("mode") == "seeds":
+        # concurrency workload: one process per Miri schedule seed
+        import concurrent.futures
+
+        def one(k):
+            e = dict(env)
+            e["MIRIFLAGS"] = base_flags + " -Zmiri-seed=%d -Zmiri-preemption-rate=0.05" % (seed * 1000 + k)
+            try:
+                p = subprocess.run(miri + [runner, "--jobs", "1", "--seed", str(seed * 1000 + k)], cwd=HARNESS, env=e,
+                                   stdout=subprocess.PIPE, stderr=subprocess.PIPE, text=True, timeout=1800)
+                return (p.returncode, p.stdout, p.stderr)
+            except subprocess.TimeoutExpired:
+                return (-999, "", "watchdog timeout")
+
+        with concurrent.futures.ThreadPoolExecutor(max_workers=max(1, jobs)) as ex:
+            results = list(ex.map(one, range(seeds)))
+    else:
+        cmds = [miri + [runner, "--jobs", "1", "--seed", str(seed), "--shard", "%d/%d" % (k, shards)] for k in range(shards)]
+        results = _run_many(cmds, env, 3000, jobs)
+    reports, violations, inconclusive = [], [], []
+    for k, (rc, out, err) in enumerate(results):
+        d = _json_line(out)
+        if d is not None:
+            reports.append(d)
+        flagged = "error: Undefined Behavior" in err or "error: memory leaked" in err or "error: unsupported operation" in err
+        if flagged:
+            first = next((l for l in err.splitlines() if l.startswith("error:")), "error")
+            kind = "data_race" if "Data race" in first else ("leak" if "leaked" in first else ("unsupported" if "unsupported" in first else "undefined_behavior"))
+            if kind == "unsupported":
+                inconclusive.append("miri %s process %d: %s" % (runner, k, first))
+                continue
+            violations.append(dict(prop=prop, rule="miri_" + kind, detail=_sanitizer_excerpt(err, ["error:"])[:4000],
+                                   signature="%s:miri:%s:%s" % (prop, runner, kind), case="%s under Miri, process %d" % (runner, k), index=k, log=[]))
+        elif rc != 0 or d is None:
+            inconclusive.append("miri %s process %d exited %s without a report: %s" % (runner, k, rc, err[-800:]))
+    m = _merge_reports(reports)
+    for v in m["violations"]:
+        v["prop"] = v.get("prop", prop)
+    m["violations"] += violations
+    m["inconclusive"] += inconclusive
+    m["lane"] = lane
+    m["counters"]["miri_processes"] = len(results)
+    m["counters"]["miri_reports"] = len(violations)
+    m["rule"] = "[under Miri: UB / aliasing / data race / leak interpreter; canary %s flagged first] %s" % (canary, m["rule"])
+    m["wall_s"] = round(time.time() - t0, 2)
+    return m
+
+
+def lane_memcheck(prop, tier, seed, jobs, params):
+    t0 = time.time()
+    runner = params["runner"]
+    lane = "memcheck:" + runner
+    exe = os.path.join(HARNESS, "target", "release", "hlmon")
+    vg = ["valgrind", "-q", "--error-exitcode=9", "--leak-check=full", "--errors-for-leak-kinds=definite,indirect", "--num-callers=30"]
+    rc, out, err = _run_many([vg + [exe, "canary_leak"]], ENV, 600, 1)[0]
+    if rc != 9:
+        return dict(lane=lane, violations=[], inconclusive=["memcheck canary (leak) was not flagged: rc=%s %s" % (rc, err[-800:])])
+    rc, out, err = _run_many([vg + [exe, runner, "--leakcheck", "--jobs", "2", "--seed", str(seed)] + (["--thorough"] if tier == "thorough" else [])], ENV, 3000, 1)[0]
+    d = _json_line(out) or {}
+    m = _merge_reports([d] if d else [])
+    if rc == 9:
+        m["violations"].append(dict(prop=prop, rule="memcheck_report", detail=_sanitizer_excerpt(err, ["=="])[:4000],
+                                    signature="%s:memcheck:%s" % (prop, runner), case="%s under valgrind memcheck" % runner, index=0, log=[]))
+    elif rc != 0 or not d:
+        m["inconclusive"].append("memcheck run exited %s: %s" % (rc, err[-800:]))
+    m["lane"] = lane
+    m["counters"]["memcheck_error_reports"] = 1 if rc == 9 else 0
+    m["rule"] = "[under valgrind memcheck --leak-check=full, definite+indirect leaks and invalid accesses are errors; canary leak flagged first] " + m["rule"]
+    m["wall_s"] = round(time.time() - t0, 2)
+    return m
+
+
+def lane_tsan(prop, tier, seed, jobs, params):
+    t0 = time.time()
+    runner = params["runner"]
+    lane = "tsan:" + runner
+    env = dict(ENV)
+    env["RUSTFLAGS"] = "-Zsanitizer=thread"
+    tdir = os.path.join(HARNESS, "target", "tsan")
+    p = subprocess.run(["cargo", "+nightly", "build", "--release", "--offline", "-Zbuild-std", "--target", "x86_64-unknown-linux-gnu", "--target-dir", tdir],
+                       cwd=HARNESS, env=env, stdout=subprocess.PIPE, stderr=subprocess.STDOUT, text=True)
+    exe = os.path.join(tdir, "x86_64-unknown-linux-gnu", "release", "hlmon")
+    if p.returncode != 0 or not os.path.exists(exe):
+        return dict(lane=lane, violations=[], inconclusive=["TSan build failed: " + p.stdout[-1500:]])
+    env2 = dict(ENV)
+    env2["TSAN_OPTIONS"] = "exitcode=66 halt_on_error=0 second_deadlock_stack=1"
+    rc, out, err = _run_many([[exe, "canary_race"]], env2, 600, 1)[0]
+    if rc != 66 or "ThreadSanitizer: data race" not in err:
+        return dict(lane=lane, violations=[], inconclusive=["TSan canary (race) was not flagged: rc=%s" % rc])
+    reps = params.get("reps_thorough", 8) if tier == "thorough" else params.get("reps_quick", 2)
+    cmds = [[exe, runner, "--seed", str(seed * 100 + k)] + (["--thorough"] if tier == "thorough" else []) for k in range(reps)]
+    results = _run_many(cmds, env2, 3000, max(1, jobs // 8))
+    reports, violations, inconclusive = [], [], []
+    for k, (rc, out, err) in enumerate(results):
+        d = _json_line(out)
+        if d is not None:
+            reports.append(d)
+        if "WARNING: ThreadSanitizer" in err:
+            n = err.count("WARNING: ThreadSanitizer")
+            violations.append(dict(prop=prop, rule="tsan_report", detail=("%d report(s); first:\n" % n) + _sanitizer_excerpt(err, ["WARNING: ThreadSanitizer"])[:4000],
+                                   signature="%s:tsan:%s" % (prop, runner), case="%s under ThreadSanitizer, run %d" % (runner, k), index=k, log=[]))
+        elif rc != 0 or d is None:
+            inconclusive.append("tsan run %d exited %s: %s" % (k, rc, err[-800:]))
+    m = _merge_reports(reports)
+    m["violations"] += violations
+    m["inconclusive"] += inconclusive
+    m["lane"] = lane
+    m["counters"]["tsan_runs"] = len(results)
+    m["counters"]["tsan_reports"] = len(violations)
+    m["rule"] = "[under ThreadSanitizer (release, -Zbuild-std); canary race flagged first] " + m["rule"]
+    m["wall_s"] = round(time.time() - t0, 2)
+    return m
+
+
+LANE_FUNCS = {"hlmon": lane_hlmon, "miri": lane_miri, "memcheck": lane_memcheck, "tsan": lane_tsan}
 
 
 def load_known():
